@@ -110,5 +110,7 @@ package channelmonitor
 //@   loop 0 invariant [all-channels] true
 //@ func (*channelmonitor.monitoredChannel).isRestarting {C14,C20}
 //@   acquires {C20} channelmonitor.monitoredChannel.restartLk
-//@ func (*channelmonitor.monitoredChannel).start {C20}
+//@ func (*channelmonitor.monitoredChannel).start {C14,C20}
+//@   establishes shutdownLk -- called by the constructor before the object is shared ("prevent shutdown until after startup")
+//@   modifies mc.unsub
 //@   acquires {C20} channelmonitor.monitoredChannel.shutdownLk
